@@ -434,6 +434,9 @@ package s3mem
 //@ loop 2 invariant  same:   unchanged(db) && db.buckets == old(db.buckets)
 //@ let LASTV = result.Versions[len(result.Versions) - 1]
 //@ let VID = ite(bucket.versioning != gofakes3.VersioningNone, version.versionID, "")
+// the key loop is only left early when the page is full or the version-id marker cannot be found: a key that
+// does not match the prefix is skipped, it does not end the listing
+//@ loop 1 exithint [C13] leave: (page.MaxKeys > 0 && cnt >= page.MaxKeys) || (first && page.VersionIDMarker != "")
 //@ loop 2 step [C13] entry:  len(result.Versions) == old(len(result.Versions)) + 1 &&
 //@                             ite(version.deleteMarker,
 //@                                 typeis(LASTV, *gofakes3.DeleteMarker) && dyn(LASTV, *gofakes3.DeleteMarker).Key == version.name &&
